@@ -7,7 +7,13 @@ type nat =
 | O
 | S of nat
 
+val fst : ('a1 * 'a2) -> 'a1
+
+val snd : ('a1 * 'a2) -> 'a2
+
 val length : 'a1 list -> nat
+
+val app : 'a1 list -> 'a1 list -> 'a1 list
 
 type comparison =
 | Eq
@@ -36,12 +42,22 @@ type z =
 | Zpos of positive
 | Zneg of positive
 
+val eqb : bool -> bool -> bool
+
 module Nat :
  sig
   val leb : nat -> nat -> bool
  end
 
 module Pos :
+ sig
+  type mask =
+  | IsNul
+  | IsPos of positive
+  | IsNeg
+ end
+
+module Coq_Pos :
  sig
   val succ : positive -> positive
 
@@ -53,6 +69,21 @@ module Pos :
 
   val pred_N : positive -> n
 
+  type mask = Pos.mask =
+  | IsNul
+  | IsPos of positive
+  | IsNeg
+
+  val succ_double_mask : mask -> mask
+
+  val double_mask : mask -> mask
+
+  val double_pred_mask : positive -> mask
+
+  val sub_mask : positive -> positive -> mask
+
+  val sub_mask_carry : positive -> positive -> mask
+
   val mul : positive -> positive -> positive
 
   val iter : ('a1 -> 'a1) -> 'a1 -> positive -> 'a1
@@ -60,6 +91,8 @@ module Pos :
   val div2 : positive -> positive
 
   val div2_up : positive -> positive
+
+  val size : positive -> positive
 
   val compare_cont : comparison -> positive -> positive -> comparison
 
@@ -88,7 +121,19 @@ module Pos :
 
 module N :
  sig
+  val succ_double : n -> n
+
+  val double : n -> n
+
   val succ_pos : n -> positive
+
+  val sub : n -> n -> n
+
+  val compare : n -> n -> comparison
+
+  val leb : n -> n -> bool
+
+  val pos_div_eucl : positive -> n -> n * n
 
   val coq_lor : n -> n -> n
 
@@ -133,6 +178,10 @@ module Z :
 
   val eqb : z -> z -> bool
 
+  val max : z -> z -> z
+
+  val min : z -> z -> z
+
   val to_nat : z -> nat
 
   val of_nat : nat -> z
@@ -147,7 +196,13 @@ module Z :
 
   val modulo : z -> z -> z
 
+  val quotrem : z -> z -> z * z
+
+  val quot : z -> z -> z
+
   val div2 : z -> z
+
+  val log2 : z -> z
 
   val shiftl : z -> z -> z
 
@@ -174,7 +229,11 @@ val firstn : nat -> 'a1 list -> 'a1 list
 
 val skipn : nat -> 'a1 list -> 'a1 list
 
+val repeat : 'a1 -> nat -> 'a1 list
+
 val w8 : z -> z
+
+val w16 : z -> z
 
 val w32 : z -> z
 
@@ -220,6 +279,8 @@ val shl32 : z -> z -> z
 
 val sub8 : z -> z -> z
 
+val and8 : z -> z -> z
+
 val or8 : z -> z -> z
 
 val xor8 : z -> z -> z
@@ -230,7 +291,15 @@ val subi64 : z -> z -> z
 
 val muli64 : z -> z -> z
 
+val divi64 : z -> z -> z
+
 val andi64 : z -> z -> z
+
+val xori64 : z -> z -> z
+
+val shri64 : z -> z -> z
+
+val negi64 : z -> z
 
 type bytes = z list
 
@@ -251,6 +320,10 @@ val le64 : bytes -> z
 val le32 : bytes -> z
 
 val le16 : bytes -> z
+
+val upd : bytes -> z -> z -> bytes
+
+val splice : bytes -> z -> bytes -> bytes
 
 val isnil : 'a1 option -> bool
 
@@ -501,3 +574,244 @@ val fold_eq : bytes -> bytes -> bool
 val has_prefix_fold : bytes -> bytes -> bool
 
 val has_suffix_fold : bytes -> bytes -> bool
+
+val bitlen64 : z -> z
+
+val le_bytes : nat -> z -> bytes
+
+val put_le32 : bytes -> z -> bytes
+
+val put_le64 : bytes -> z -> bytes
+
+val proto_zeroSize : z
+
+val proto_noflags : z
+
+val proto_inline : z
+
+val proto_wantzero : z
+
+val proto_toplevel : z
+
+val proto_varint : z
+
+val proto_fixed64 : z
+
+val proto_varlen : z
+
+val proto_fixed32 : z
+
+val proto_embedded : z
+
+val proto_repeated : z
+
+val proto_zigzag : z
+
+type proto_error =
+| Proto_errVarintOverflow
+| Proto_ErrWireTypeUnknown
+| Proto_ErrShortBuffer
+| Proto_ErrUnexpectedEOF
+
+val proto_encodeZigZag64 : z -> z
+
+val proto_decodeZigZag64 : z -> z
+
+val proto_sizeOfVarint : z -> z
+
+val proto_sizeOfVarlen : z -> z
+
+val proto_sizeOfTag : z -> z -> z
+
+val proto_encodeVarint : bytes -> z -> (z * proto_error option) * bytes
+
+val proto_encodeLE32 : bytes -> z -> (z * proto_error option) * bytes
+
+val proto_encodeLE64 : bytes -> z -> (z * proto_error option) * bytes
+
+val proto_encodeTag : bytes -> z -> z -> (z * proto_error option) * bytes
+
+val proto_decodeVarint : bytes -> (z * z) * proto_error option
+
+val proto_decodeLE32 : bytes -> (z * z) * proto_error option
+
+val proto_decodeLE64 : bytes -> (z * z) * proto_error option
+
+val proto_decodeTag : bytes -> ((z * z) * z) * proto_error option
+
+val proto_decodeVarlen : bytes -> (bytes * z) * proto_error option
+
+val proto_flags_has : z -> z -> bool
+
+val proto_flags_with : z -> z -> z
+
+val proto_flags_without : z -> z -> z
+
+val proto_flags_uint64 : z -> z -> z
+
+val proto_flags_int64 : z -> z -> z
+
+type 'a res =
+| Ok of 'a
+| Panic
+| OutOfFuel
+
+val rbind : 'a1 res -> ('a1 -> 'a2 res) -> 'a2 res
+
+val cfrom : bytes -> z -> bytes res
+
+val cslice : bytes -> z -> z -> bytes res
+
+type ptag = { tag_wire : z; tag_number : z; tag_repeated : bool;
+              tag_zigzag : bool }
+
+type gty =
+| TBool
+| TInt
+| TInt32
+| TInt64
+| TUint
+| TUint32
+| TUint64
+| TFloat32
+| TFloat64
+| TString
+| TBytes
+| TByteArray of nat
+| TPtr of gty
+| TStruct of gfield list
+| TSlice of gty
+| TMap of gty * gty
+| TRawMessage
+and gfield =
+| GField of bool * ptag option * gty
+
+type val0 =
+| VBool of bool
+| VInt of z
+| VStr of bytes
+| VBytes of bool * bytes
+| VArr of bytes
+| VPtr of val0 option
+| VStruct of val0 list
+| VSlice of val0 list
+| VMap of bool * (val0 * val0) list
+| VRaw of bool * bytes
+
+type codec =
+| CBool
+| CInt
+| CInt32
+| CInt64
+| CUint
+| CUint32
+| CUint64
+| CFixed32
+| CFixed64
+| CFloat32
+| CFloat64
+| CString
+| CBytes
+| CByteArray of nat
+| CPtr of gty * codec
+| CStruct of bool * sfield list
+| CSlice of z * z * bool * gty * codec
+| CMap of z * z * z * gty * gty * codec * codec
+| CMessage
+| CUnsupported
+and sfield =
+| SField of z * z * z * gty * codec
+
+val wire : codec -> z
+
+val base_ty : gty -> gty
+
+val is_struct : gty -> bool
+
+val inlined_ty : gty -> bool
+
+val zero_val : gty -> val0
+
+val pointers_to : gty -> codec -> codec
+
+val codec_of : gty -> codec
+
+val sf_number : sfield -> z
+
+val sf_tagsize : sfield -> z
+
+val sf_flags : sfield -> z
+
+val sf_ty : sfield -> gty
+
+val sf_codec : sfield -> codec
+
+val sf_embedded : sfield -> bool
+
+val sf_repeated : sfield -> bool
+
+val make_flags : sfield -> z -> z
+
+val has : z -> z -> bool
+
+val without : z -> z -> z
+
+val with_ : z -> z -> z
+
+val all_zero : bytes -> bool
+
+val f32_nonzero : z -> bool
+
+val f64_nonzero : z -> bool
+
+val f32_signbit : z -> bool
+
+val f64_signbit : z -> bool
+
+val size_of : codec -> val0 option -> z -> z
+
+type eres = ((z * proto_error option) * bytes) res
+
+val ret : z -> proto_error option -> bytes -> eres
+
+val in_from : bytes -> z -> (bytes -> eres) -> eres
+
+val in_window : bytes -> z -> z -> (bytes -> eres) -> eres
+
+val lift3 : ((z * proto_error option) * bytes) -> eres
+
+val copy_at : bytes -> z -> bytes -> (z * bytes) res
+
+val encode_varlen_bytes : bytes -> bytes -> eres
+
+val encode : codec -> bytes -> val0 option -> z -> eres
+
+type dres = ((z * proto_error option) * val0) res
+
+val dret : z -> proto_error option -> val0 -> dres
+
+val err_overflow : proto_error option
+
+val err_mismatch : proto_error option
+
+val val_eqb : val0 -> val0 -> bool
+
+val map_assign : (val0 * val0) list -> val0 -> val0 -> (val0 * val0) list
+
+val nth_field : sfield list -> val0 list -> z -> (nat * sfield) option
+
+val max_number : sfield list -> z
+
+val set_nth : val0 list -> nat -> val0 -> val0 list
+
+val decode : nat -> codec -> bytes -> val0 -> z -> dres
+
+val top_flags : z
+
+val size0 : gty -> val0 -> z
+
+val marshal : gty -> val0 -> bytes option res
+
+val marshalTo : gty -> bytes -> val0 -> eres
+
+val unmarshal : nat -> gty -> bytes -> val0 -> val0 option res
